@@ -2047,3 +2047,330 @@ func rulePoolResetComplete(c *Ctx) {
 		c.ob(rule, key, putPos, len(missing) == 0, fmt.Sprintf("a %s goes back to %s with %s neither reset before the Put nor set after the Get on every path: what one call stored there is seen by the next one", named.Obj().Name(), pool.Name(), strings.Join(missing, ", ")))
 	}
 }
+
+func init() {
+	registerRule("cache-consulted-first", 1, "in the function that calls the document loader every exit comes after the cache lookup: nothing (a memo of failures, a shortcut) answers for a document before the cache has been asked", ruleCacheConsultedFirst)
+	registerRule("fresh-ref-producers", 1, "the functions whose results are treated as fresh references (their URL may be altered in place by the caller) build those results in the call: none hands back a reference kept in a map or a package variable", ruleFreshRefProducers)
+}
+
+// ruleCacheConsultedFirst (C08/C18): go/cfg must-analysis on the function that holds the loader call site: every
+// return statement is reached only through the ResolutionCache lookup. A document the supplied cache holds (a
+// pre-loaded one, or an id-scoped schema registered during the expansion) must be found there whatever else the
+// function remembers about its location.
+func ruleCacheConsultedFirst(c *Ctx) {
+	const rule = "cache-consulted-first"
+	var home *ast.FuncDecl
+	for _, fd := range c.allFuncDecls() {
+		if fd.Body == nil {
+			continue
+		}
+		ast.Inspect(fd.Body, func(n ast.Node) bool {
+			if call, ok := n.(*ast.CallExpr); ok && c.isDocLoaderCall(call) {
+				home = fd
+			}
+			return true
+		})
+	}
+	if home == nil {
+		c.undecided(rule, "loader-call", token.NoPos, "the function calling the document loader was not found")
+		return
+	}
+	// the loader call may sit in a helper that is only called on a miss: the function to look at is the nearest
+	// caller that holds the cache lookup
+	for depth := 0; depth < 3 && c.hasCacheCall(home, "Get") == nil; depth++ {
+		self, _ := c.Info.Defs[home.Name].(*types.Func)
+		var callers []*ast.FuncDecl
+		for _, g := range c.pkgFuncs() {
+			for _, h := range c.staticCallees(g) {
+				if h == self {
+					callers = append(callers, c.decl(g))
+				}
+			}
+		}
+		if len(callers) != 1 || callers[0] == nil {
+			break
+		}
+		home = callers[0]
+	}
+	fn := c.funcName(home)
+	c.saw(fn)
+	isGet := func(call *ast.CallExpr) bool {
+		if c.isCacheCall(call, "Get") {
+			return true
+		}
+		// ... or a package helper that consults the cache on every path
+		if g, ok := c.callee(call).(*types.Func); ok && g.Pkg() == c.Types {
+			if gfd := c.decl(g); gfd != nil && gfd.Body != nil && gfd != home {
+				return c.hasCacheCall(gfd, "Get") != nil
+			}
+		}
+		return false
+	}
+	const asked factBits = 1
+	n, bad := 0, token.NoPos
+	flowForward(c.cfgOf(home), 0, func(nd ast.Node, in factBits) factBits {
+		if containsCall(nd, isGet) {
+			in |= asked
+		}
+		return in
+	}, func(nd ast.Node, in factBits) {
+		rs, ok := nd.(*ast.ReturnStmt)
+		if !ok {
+			return
+		}
+		n++
+		if containsCall(rs, isGet) {
+			in |= asked
+		}
+		if in&asked == 0 && bad == token.NoPos {
+			bad = rs.Pos()
+		}
+	})
+	pos := home.Pos()
+	if bad != token.NoPos {
+		pos = bad
+	}
+	c.ob(rule, fn+":every-exit-after-lookup", pos, n > 0 && bad == token.NoPos,
+		fn+" can return before the resolution cache has been asked for the document: a document that the cache holds (pre-loaded, or registered under a schema id during the expansion) is then reported as failing or fetched again")
+}
+
+// ruleFreshRefProducers (C13/C16): ref-opaque lets callers store through the *url.URL of a reference that
+// normalizeRef, NewRef or MustCreateRef has just returned, because such a reference is theirs alone. That holds
+// only while those functions build what they return: on their effect normal form no returned value is (or is a
+// copy of) something read out of a map, a sync.Map or a package-level variable.
+func ruleFreshRefProducers(c *Ctx) {
+	const rule = "fresh-ref-producers"
+	n := 0
+	for _, name := range []string{"normalizeRef", "NewRef", "MustCreateRef"} {
+		f := c.funcObj(name)
+		fd := c.decl(f)
+		if f == nil || fd == nil || fd.Body == nil {
+			continue
+		}
+		paths, unsup := c.simulate(fd, func(*types.Func) bool { return false })
+		if unsup != "" || len(paths) == 0 {
+			continue
+		}
+		n++
+		c.saw(name)
+		why := ""
+		for _, p := range paths {
+			for _, r := range p.rets {
+				if t := c.svStaticType(r); t == nil || !isNamed(t, c.Types, "Ref") {
+					continue
+				}
+				v := r
+				if ad, isAddr := v.(svAddr); isAddr && len(ad.p.steps) == 0 {
+					if held, has := p.final[ad.p.root]; has {
+						v = held
+					}
+				}
+				// (what goes through a parse - MustCreateRef, NewRef, jsonreference.New - comes out as a new reference:
+				// the walk does not look below such a call)
+				var walk func(x sval)
+				walk = func(x sval) {
+					if why != "" || x == nil {
+						return
+					}
+					switch y := x.(type) {
+					case svIndex:
+						why = "hands back " + svString(y) + ", an entry of a map"
+					case svPath:
+						if pv, isVar := y.root.(*types.Var); isVar && pv.Parent() == c.Types.Scope() {
+							why = "hands back a value held by the package variable " + pv.Name()
+						}
+						if y.via != nil {
+							walk(y.via)
+						}
+					case svAddr:
+						walk(y.p)
+					case svSel:
+						walk(y.x)
+					case svStruct:
+						for _, fv := range y.fields {
+							walk(fv)
+						}
+					case svCall:
+						if g, isF := y.callee.(*types.Func); isF {
+							if g.Pkg() != nil && g.Pkg().Path() == "sync" && (g.Name() == "Load" || g.Name() == "LoadOrStore" || g.Name() == "Get") {
+								why = "hands back what " + g.Name() + " found in a shared table"
+								return
+							}
+							switch g.Name() {
+							case "MustCreateRef", "NewRef", "New", "MustCreateRefFromURL":
+								return
+							}
+						}
+						if y.recv != nil {
+							walk(y.recv)
+						}
+						for _, a := range y.args {
+							walk(a)
+						}
+					}
+				}
+				walk(v)
+			}
+		}
+		if why != "" {
+			why = name + " " + why + ": its callers alter the URL of the reference they receive in place (transitiveResolver clears the fragment), which then changes the remembered reference for every later call"
+		}
+		c.ob(rule, name+":builds-its-result", fd.Pos(), why == "", why)
+	}
+	if n == 0 {
+		c.undecided(rule, "producers", token.NoPos, "none of normalizeRef / NewRef / MustCreateRef could be normalised")
+	}
+}
+
+// svStaticType: the static type of a returned normal-form value, where it can be told.
+func (c *Ctx) svStaticType(v sval) types.Type {
+	switch x := v.(type) {
+	case svAddr:
+		if t := c.simTypeAtPath(x.p); t != nil {
+			return types.NewPointer(t)
+		}
+	case svPath:
+		return c.simTypeAtPath(x)
+	case svStruct:
+		return x.t
+	case svZero:
+		return x.t
+	case svCall:
+		if f, ok := x.callee.(*types.Func); ok {
+			if res := f.Type().(*types.Signature).Results(); x.idx < res.Len() {
+				return res.At(x.idx).Type()
+			}
+		}
+	}
+	return nil
+}
+
+func init() {
+	registerRule("order-not-by-difference", 1, "two int values are ordered by comparing them, never by the sign of their difference (which wraps around for values more than MaxInt apart)", ruleOrderNotByDifference)
+}
+
+// ruleOrderNotByDifference (C06/C07): in every package function, an int difference a - b of two values that are not
+// lengths, capacities or constants is not used as an ordering: it is neither compared with zero (d < 0, d > 0,
+// d != 0 followed by a sign test) nor returned by a function whose result callers compare with zero. For x-order
+// values taken from the document the difference overflows, the comparator stops being transitive and the order of
+// the output depends on map iteration.
+func ruleOrderNotByDifference(c *Ctx) {
+	const rule = "order-not-by-difference"
+	isBounded := func(e ast.Expr) bool {
+		e = unparen(e)
+		if tv, ok := c.Info.Types[e]; ok && tv.Value != nil {
+			return true
+		}
+		if call, ok := e.(*ast.CallExpr); ok && (c.isBuiltin(call, "len") || c.isBuiltin(call, "cap")) {
+			return true
+		}
+		if call, ok := e.(*ast.CallExpr); ok && c.isConversion(call) && len(call.Args) == 1 {
+			// int(b - '0'), int(x[i]): a byte or rune widened
+			if t := c.typeOf(call.Args[0]); t != nil {
+				if b, isB := t.Underlying().(*types.Basic); isB && (b.Kind() == types.Uint8 || b.Kind() == types.Int32 || b.Kind() == types.Uint16 || b.Kind() == types.Int8 || b.Kind() == types.Int16) {
+					return true
+				}
+			}
+		}
+		return false
+	}
+	isWideInt := func(e ast.Expr) bool {
+		t := c.typeOf(e)
+		if t == nil {
+			return false
+		}
+		b, ok := t.Underlying().(*types.Basic)
+		return ok && (b.Kind() == types.Int || b.Kind() == types.Int64 || b.Kind() == types.UntypedInt)
+	}
+	isUnboundedDiff := func(e ast.Expr) bool {
+		be, ok := unparen(e).(*ast.BinaryExpr)
+		if !ok || be.Op != token.SUB || !isWideInt(be) {
+			return false
+		}
+		return !isBounded(be.X) && !isBounded(be.Y)
+	}
+	isZero := func(e ast.Expr) bool {
+		tv, ok := c.Info.Types[e]
+		return ok && tv.Value != nil && tv.Value.String() == "0"
+	}
+	// functions that return such a difference
+	returnsDiff := map[*types.Func]token.Pos{}
+	for _, fd := range c.allFuncDecls() {
+		if fd.Body == nil {
+			continue
+		}
+		f, _ := c.Info.Defs[fd.Name].(*types.Func)
+		if f == nil {
+			continue
+		}
+		ast.Inspect(fd.Body, func(n ast.Node) bool {
+			if _, isLit := n.(*ast.FuncLit); isLit {
+				return false
+			}
+			if rs, ok := n.(*ast.ReturnStmt); ok && len(rs.Results) == 1 && isUnboundedDiff(rs.Results[0]) {
+				returnsDiff[f] = rs.Pos()
+			}
+			return true
+		})
+	}
+	n := 0
+	for _, fd := range c.allFuncDecls() {
+		if fd.Body == nil {
+			continue
+		}
+		fn := c.funcName(fd)
+		defs := c.localDefs(fd)
+		var bad []string
+		var badPos token.Pos
+		isDiffValue := func(e ast.Expr) bool {
+			e = unparen(e)
+			if isUnboundedDiff(e) {
+				return true
+			}
+			if id, ok := e.(*ast.Ident); ok {
+				ds := defs[c.objOf(id)]
+				if len(ds) == 0 {
+					return false
+				}
+				for _, d := range ds {
+					if d == nil || !isUnboundedDiff(d) {
+						return false
+					}
+				}
+				return true
+			}
+			if call, ok := e.(*ast.CallExpr); ok {
+				if g, isF := c.callee(call).(*types.Func); isF {
+					if _, has := returnsDiff[g]; has {
+						return true
+					}
+				}
+			}
+			return false
+		}
+		ast.Inspect(fd.Body, func(nd ast.Node) bool {
+			be, ok := nd.(*ast.BinaryExpr)
+			if !ok {
+				return true
+			}
+			switch be.Op {
+			case token.LSS, token.GTR, token.LEQ, token.GEQ:
+			default:
+				return true
+			}
+			if isZero(be.Y) && isDiffValue(be.X) || isZero(be.X) && isDiffValue(be.Y) {
+				bad = append(bad, exprString(be))
+				if badPos == token.NoPos {
+					badPos = be.Pos()
+				}
+			}
+			return true
+		})
+		if len(bad) > 0 {
+			n++
+			c.saw(fn)
+			c.ob(rule, fn+":"+bad[0], badPos, false, "the sign of an int difference ("+strings.Join(bad, ", ")+") is used as an ordering: for values more than MaxInt apart (an x-order of 9223372036854775807 next to -1) the difference wraps around, the relation is not transitive and the sorted output depends on map iteration order")
+		}
+	}
+	c.ob(rule, "scan", token.NoPos, true, "").Trivial = n > 0
+}
